@@ -17,7 +17,7 @@ def run(ctx, cases_override=None):
     thorough = ctx.thorough
     full = "TRUE" if thorough else "FALSE"
     # ---- MC: the option table with the validators and use sites of the current code is total
-    mc = ctx.tlc("ConfigTotality", "c18_mc.cfg", files={"c18_mc.cfg": CFG % ("TRUE", "TRUE", "Inv_C18 Inv_RejectsOnlyInvalid Inv_AnchorKeepsValid")},
+    mc = ctx.tlc("ConfigTotality", "c18_mc.cfg", files={"c18_mc.cfg": CFG % ("TRUE", "TRUE", "Inv_C18 Inv_RejectsOnlyInvalid Inv_AnchorKeepsValid Inv_GroupedNeedsOwnValidation")},
                  timeout=1800, allow_violation=True)
     leads = [mc["invariant_violated"]] if mc["invariant_violated"] else []
     # vacuity guard: the same table with the pre-fix MustExpand (nil on error) must yield the F7 counterexample
@@ -78,7 +78,7 @@ def run(ctx, cases_override=None):
         "evaluations": len(recs),
         "distinct_nontrivial": len(nontriv),
         "rule": "GEN: every option of the table x every value class of its type x rule-content classes (quick: values that do not "
-                "reference rule fields meet 10 of the 46 rule classes; thorough: all pairs), TLC exhaustive; non-trivial = distinct "
+                "reference rule fields meet 14 of the 62 rule classes; thorough: all pairs), TLC exhaustive; non-trivial = distinct "
                 "(option, value, rule) cases whose configuration the binary accepted, so that a lint run took place",
         "exhaustive": True,
         "options": len({r["opt"] for r in recs}), "configurations": len({(r["opt"], r["cls"]) for r in recs}),
